@@ -753,3 +753,41 @@ package rtcp
 //@ func (p *ReceiverEstimatedMaximumBitrate) String() (result string)
 //@   safety[C17]
 //@   unroll 1 9
+
+//@ func (p ReceiverEstimatedMaximumBitrate) MarshalTo(buf []byte) (n int, err error)
+//@   safety[C09]
+//@   modifies buf
+//@   requires[C14] notnan: p.Bitrate == p.Bitrate
+//@   ensures[C08,C14] ok: (err == nil) <==> (len(buf) >= 20+4*len(p.SSRCs) && !(p.Bitrate < 0) && len(p.SSRCs) <= 255)
+//@   ensures[C05,C14] n: err == nil ==> n == 20 + 4*len(p.SSRCs)
+//@   ensures[C03,C05,C07] header: err == nil ==> buf[0] == 0x8f && buf[1] == 206 && be16(buf, 2) == uint16((20+4*len(p.SSRCs))/4-1)
+//@   ensures[C03] fixed: err == nil ==> be32(buf, 4) == p.SenderSSRC && be32(buf, 8) == 0 && buf[12] == 'R' && buf[13] == 'E' && buf[14] == 'M' && buf[15] == 'B'
+//@   ensures[C03,C08,C14] count: err == nil ==> int(buf[16]) == len(p.SSRCs)
+//@   ensures[C03] ssrcs: forall k :: err == nil && 0 <= k && k < len(p.SSRCs) ==> be32(buf, 20+4*k) == p.SSRCs[k]
+//@   ensures[C14] below: err == nil ==> specRembValue(specRembMantissa(buf), buf[17]>>2) <= p.Bitrate
+//@   ensures[C14] normal: err == nil ==> buf[17]>>2 == 0 || specRembMantissa(buf) >= 1<<17
+//@   ensures[C14] tight: err == nil ==> p.Bitrate < specRembRaw(specRembMantissa(buf)+1, buf[17]>>2) || (specRembMantissa(buf) == 0x3FFFF && buf[17]>>2 == 63)
+//@   loop 1
+//@     invariant 0 <= exp && exp <= 64 && bitrate >= 0 && bitrate * specPow2i(exp) == specRembClamp(p.Bitrate) && (exp == 0 || bitrate >= 1<<17)
+//@     invariant buf[0] == 0x8f && buf[1] == 206 && be16(buf, 2) == uint16((20+4*len(p.SSRCs))/4-1) && be32(buf, 4) == p.SenderSSRC && be32(buf, 8) == 0 && buf[12] == 'R' && buf[13] == 'E' && buf[14] == 'M' && buf[15] == 'B' && int(buf[16]) == len(p.SSRCs)
+//@     decreases 64 - exp
+//@   loop 2
+//@     invariant 0 <= iter() && iter() <= len(p.SSRCs) && n == 20 + 4*iter()
+//@     invariant unchanged(buf[0]) && unchanged(buf[1]) && unchanged(buf[2]) && unchanged(buf[3]) && unchanged(be32(buf, 4)) && unchanged(be32(buf, 8)) && unchanged(be32(buf, 12)) && unchanged(be32(buf, 16))
+//@     invariant[C03] forall k :: 0 <= k && k < iter() ==> be32(buf, 20+4*k) == p.SSRCs[k]
+//@     decreases len(p.SSRCs) - iter()
+
+//@ func (p ReceiverEstimatedMaximumBitrate) Marshal() (buf []byte, err error)
+//@   safety[C09]
+//@   fresh
+//@   requires[C14] notnan: p.Bitrate == p.Bitrate
+//@   ensures[C08,C14] ok: (err == nil) <==> (!(p.Bitrate < 0) && len(p.SSRCs) <= 255)
+//@   ensures[C08] nobytes: err != nil ==> len(buf) == 0
+//@   ensures[C03,C05] size: err == nil ==> len(buf) == 20 + 4*len(p.SSRCs)
+//@   ensures[C03,C05,C07] header: err == nil ==> buf[0] == 0x8f && buf[1] == 206 && be16(buf, 2) == uint16(len(buf)/4-1)
+//@   ensures[C03] fixed: err == nil ==> be32(buf, 4) == p.SenderSSRC && be32(buf, 8) == 0 && buf[12] == 'R' && buf[13] == 'E' && buf[14] == 'M' && buf[15] == 'B'
+//@   ensures[C03,C08,C14] count: err == nil ==> int(buf[16]) == len(p.SSRCs)
+//@   ensures[C03] ssrcs: forall k :: err == nil && 0 <= k && k < len(p.SSRCs) ==> be32(buf, 20+4*k) == p.SSRCs[k]
+//@   ensures[C14] below: err == nil ==> specRembValue(specRembMantissa(buf), buf[17]>>2) <= p.Bitrate
+//@   ensures[C14] normal: err == nil ==> buf[17]>>2 == 0 || specRembMantissa(buf) >= 1<<17
+//@   ensures[C14] tight: err == nil ==> p.Bitrate < specRembRaw(specRembMantissa(buf)+1, buf[17]>>2) || (specRembMantissa(buf) == 0x3FFFF && buf[17]>>2 == 63)
